@@ -64,6 +64,11 @@ let handle = function
        let syms = sorted (List.map (fun (n, y) -> si n ^ "@" ^ rname y.sy_ref ^ (if y.sy_at_end then "$" else "")) s.a_syms) in
        let edges = sorted (List.map (fun e -> bname e.ae_src ^ ">" ^ rname e.ae_tgt ^ ":" ^ si e.ae_type ^ (if e.ae_cond then "c" else "") ^ (if e.ae_direct then "d" else "i")) s.a_cfg) in
        cat " | " (sects @ ["syms " ^ cat "," syms; "edges " ^ cat "," edges; "proxies " ^ string_of_int (List.length s.a_proxies)]))
+  | "patchids" ->
+    (* the names of the module's symbols -> the last patch id in use and the suffix the first patch of a new context gets *)
+    let names = listn (fun () -> cstr_of_str (next ())) in
+    let last = last_used_patch_id names in
+    "last " ^ si last ^ " suffix " ^ str_of_cstr (patch_suffix (nat_of_int (i_of last + 1)))
   | "createir" ->
     (* the operand-size tables of the sections of a result -> the IR's symbolicExpressionSizes, keyed by (section, offset) *)
     let sects = listn (fun () -> let name = nn () in let sizes = listn (fun () -> let o = next_z () in let z = next_z () in (o, z)) in
